@@ -49,11 +49,22 @@ def plan(tier, seed):
     for part in chunked(range(NRANDOM[tier]), 8):
         if part:
             specs.append({'name': 'random', 'lo': part[0], 'hi': part[-1] + 1})
+    for part in chunked(range(NTCP[tier]), 8):
+        if part:
+            specs.append({'name': 'tcp', 'lo': part[0], 'hi': part[-1] + 1})
     return specs
+
+
+NTCP = {'quick': 96, 'thorough': 2400}
 
 
 def run_shard(spec, tier, seed):
     res = Result()
+    if spec['name'] == 'tcp':
+        from . import c09tcp
+        for i in range(spec['lo'], spec['hi']):
+            c09tcp.run_case(res, {'tcp': True, 'index': i, 'seed': seed})
+        return res
     if spec['name'] == 'sweep':
         for served, ts in spec['configs']:
             run_case(res, {'served': served, 'ts': ts, 'contexts': [], 'ids': [], 'probe': True})
@@ -80,6 +91,10 @@ def run_shard(spec, tier, seed):
 
 def replay(case):
     res = Result()
+    if case.get('tcp'):
+        from . import c09tcp
+        c09tcp.run_case(res, case)
+        return res
     run_case(res, case)
     return res
 
